@@ -95,8 +95,8 @@ func splitServerName(serverName ServerName) (string, int) {
 
 	portStr := nameStr[lastColon+1:]
 	port, err := strconv.ParseUint(portStr, 10, 16)
-	if err != nil {
-		// invalid port (possibly an ipv6 host)
+	if err != nil || len(portStr) > 5 {
+		// invalid port (possibly an ipv6 host); the grammar allows at most five digits
 		return nameStr, -1
 	}
 
